@@ -2,6 +2,7 @@
 from ..gen import cells as G
 from ..gen import vmvals as V
 from ..translate import arith2
+from ..translate import vmsrc
 
 SPEC = dict(
     manifest=dict(
@@ -31,7 +32,9 @@ SPEC = dict(
                    'in model and spec (HashMap codec is C09/C10); cell construction is a parameter (mk/view/ord) with the laws view(mk b r) = (b, r), '
                    'ord(mk b r); the post-state model describes successful calls only; model = code is sampled differential testing.',
         technique='Lean 4 proof (hand model) + differential correspondence with the library + source-regenerated range tests'),
-    translators=[('vm_stack.py tinyint / cell-slice window tests->Generated/VmStackTests.lean', arith2.regenerator('VmStackTests'))],
+    translators=[('vm_stack.py tinyint / cell-slice window tests->Generated/VmStackTests.lean', arith2.regenerator('VmStackTests')),
+                 ('vm_stack.py whole serialize / deserialize methods->Generated/VmStackSrc.lean', vmsrc.regenerate)],
+    lean_targets=['TonVerif.Proofs.SrcVmStack', 'TonVerif.Proofs.SrcVmStackDe'],
     design_ref='DESIGN.md §6 C17',
     rule='stacks of depth 0..50 (thorough 0..2000 and the cell-depth limit 1021..1024) of null / ints at +-2^63, +-(2^63+-1), +-2^256 and random '
          'magnitudes / cells / slices with partly consumed bits and refs / builders / tuples nested to depth 6 with lengths 0..5, 255, 256 / all ten '
@@ -320,6 +323,48 @@ def src_search(ctx, cx):
         if -2 ** 256 <= v < 2 ** 256:
             check_stack(ctx, cx, [['i', v]], 'src-int')
             check_stack(ctx, cx, [['i', 7], ['t', [['i', v], ['n']]], ['i', v]], 'src-int-nested')
+    if len(ctx.failures) > n0:
+        return True
+    return src_search_whole(ctx, cx)
+
+
+def src_search_whole(ctx, cx):
+    """Search mode: Lean evaluates the REGENERATED serialize / deserialize methods (Generated/VmStackSrc.lean) against the hand
+    model on the validation stacks (every value kind, tuple length class, continuation kind, Maybe combination, integer
+    boundary) and on the cells the library writes for them; the stacks on which they differ go through the property's oracle
+    first (schema encoding, caller's values untouched, round trip)."""
+    lib = V._lib()[0]
+    try:
+        cx0, stacks = vmsrc.validation_stacks()
+    except Exception as e:
+        ctx.notes.append(f'source-diff search (VmStackSrc): no inputs: {type(e).__name__}: {e}')
+        return False
+    lines, owner = [], []
+    for st in stacks:
+        c1 = cx0.fresh()
+        try:
+            toks = V.stack_tokens(c1, st)
+        except V.Unencodable:
+            continue
+        lines.append(f'ser {c1.dag_arg()} {toks}')
+        owner.append(st)
+        if st:
+            lines.append(f'serv {c1.dag_arg()} {V.stack_tokens(c1, [st[0]])}')
+            owner.append([st[0]])
+        cell, e = _try(lambda: lib.VmStack.serialize([V.mk_lib(c1, d) for d in st]))
+        if cell is not None:
+            nodes, root = V.flatten(cell)
+            lines.append(f'de {G.dag_line(nodes)[8:]} {root}')
+            owner.append(st)
+    diff = set(vmsrc.diff_lines(ctx, lines))
+    n0 = len(ctx.failures)
+    seen = set()
+    for l, st in zip(lines, owner):
+        if l in diff and repr(st) not in seen:
+            seen.add(repr(st))
+            check_stack(ctx, cx, st, 'src-diff')
+            if len(ctx.failures) > n0 + 3:
+                break
     return len(ctx.failures) > n0
 
 
